@@ -944,6 +944,7 @@ class RpcServer:
                 except ProtocolVersionError as exc:
                     err_schema = info.result_schema if info.method_type == MethodType.UNARY else _EMPTY_SCHEMA
                     _write_error_stream(transport.writer, err_schema, exc, server_id=self._server_id)
+                    self._drain_unopened_stream_input(transport, info)
                     return
 
             # Request validation. Both steps are answered with a typed error
@@ -967,6 +968,7 @@ class RpcServer:
             except Exception as exc:
                 err_schema = info.result_schema if info.method_type == MethodType.UNARY else _EMPTY_SCHEMA
                 _write_error_stream(transport.writer, err_schema, exc, server_id=self._server_id)
+                self._drain_unopened_stream_input(transport, info)
                 return
 
             # Determine the SHM segment for this call's data plane (resolving
@@ -1009,6 +1011,23 @@ class RpcServer:
             _current_request_metadata.reset(md_token)
             _current_call_stats.reset(stats_token)
             _current_request_id.reset(token)
+
+    def _drain_unopened_stream_input(self, transport: RpcTransport, info: RpcMethodInfo) -> None:
+        """Consume the input stream of a stream call that was refused before its output stream opened.
+
+        The client of a header-declaring method reads the error where it
+        expected the header and never opens its input stream.  The client of
+        a header-less method already holds a ``StreamSession``: it learns of
+        the failure only on its first ``tick()`` / ``exchange()`` /
+        ``close()`` / ``cancel()``, each of which writes a complete input IPC
+        stream.  Left unread, the next ``serve_one`` would take that stream
+        for a request, and every later call on the connection would receive
+        its predecessor's answer.
+        """
+        if info.method_type != MethodType.STREAM or info.header_type is not None:
+            return
+        with contextlib.suppress(pa.ArrowInvalid, OSError, StopIteration):
+            _drain_stream(ValidatedReader(ipc.open_stream(transport.reader), self._ipc_validation))
 
     def _prepare_method_call(
         self, info: RpcMethodInfo, kwargs: dict[str, object]
@@ -1142,6 +1161,13 @@ class RpcServer:
         # the outer one handles streaming errors.  Only one access log fires per call.
         try:
             result: Stream[StreamState, Any] = getattr(self._impl, info.name)(**kwargs)
+            # An implementation fault must be answered like any other init
+            # error: escaping from here would end the serve loop's thread
+            # without a reply and leave the client blocked on its next read.
+            if not isinstance(result, Stream):
+                raise TypeError(f"Method '{info.name}' must return a Stream, got {type(result).__name__}")
+            if info.header_type is not None and result.header is None:
+                raise TypeError(f"Method '{info.name}' declares header type but returned header=None")
         except Exception as exc:
             _hook_exc = exc
             status = "error"
@@ -1149,6 +1175,7 @@ class RpcServer:
             error_message = str(exc)
             with contextlib.suppress(BrokenPipeError, OSError):
                 _write_error_stream(transport.writer, _EMPTY_SCHEMA, exc, server_id=self._server_id)
+            self._drain_unopened_stream_input(transport, info)
             return
         finally:
             if status == "error":
